@@ -312,13 +312,10 @@ Definition wf (c : case) : bool :=
   list_eqb N.eqb (sort (concat (segs c))) (map N.of_nat (seq 0 (length (full c))))
   && (0 <? limit c).
 
-(** Known class 1: pruned execution with block-max bounds ([execution = bmw] on the score fast path
-    with scoring terms).  [wand_loop] selects the pivot with the bound of each term's *current* block,
-    which does not bound later blocks of that term, so a segment's top-k can miss documents (a defect
-    of query/wand.rs, outside this model: the model assumes every segment ranks its accepted documents
-    exactly). *)
-Definition known_class (c : case) : N :=
-  if negb (exhaustive c) && (strategy c =? 2) then 1 else 0.
+(** No known class is left: the block-max pivot defect of query/wand.rs that made paged walks lose
+    documents under [execution = bmw] was repaired in /repo ("fix: block-max WAND selected the pivot
+    with current-block bounds ..."; see known_findings.jsonl, property C09). *)
+Definition known_class (c : case) : N := 0.
 
 Definition check_case (c : case) : N :=
   if wf c then verdict (corr c) (spec c) (known_class c) else 2.
